@@ -27,7 +27,29 @@ What the evaluator takes from where (never from what was appended):
 Strings are unique tokens over the alphabet ``qxzjkvw`` placed header-only /
 body-only / both / nowhere; no other text of a generated message contains
 three consecutive letters of that alphabet, so every reasonable reading of
-"contains" (raw header, decoded header, envelope field) agrees.
+"contains" (raw header, decoded header, envelope field) agrees.  Search
+strings are whole tokens, slices of tokens, two adjacent tokens (never across
+a folded line) in any letter case, and tokens that occur nowhere.  The only
+non-token strings are used with ``HEADER Date``: "", weekday names (written in
+some generated Date headers, left out in others) and years.
+
+Mechanism ids (all computed from the witness by shrinking, in the same
+session): when a program's result is not an allowed outcome every sub-program
+is re-issued alone, innermost first, and the smallest ones that are wrong on
+their own are named -- ``search-wrong-result:<KEY>`` for a leaf key,
+``:OR`` / ``:NOT`` / ``:conjunction`` for a combinator whose operands are all
+right, ``:spelling:charset|keycase`` if only the spelling matters; a
+structural refinement is appended where one is evident from the witness
+(``BODY:matches-header-text``: every surplus message has the string in its
+header only; ``HEADER:matches-rerendered-date``: the string is the weekday of
+the date but is not written in the header; ``@hidden-view``: otherwise
+unexplained and observed while expunged messages were hidden).
+``search-seq-vs-uid-differ:<KEY>`` names the smallest sub-program for which
+SEARCH and UID SEARCH disagree (``:ALL`` = the numbering itself;
+``SEQSET:bare-set-read-as-uids`` = UID SEARCH returned exactly what the set
+selects when read as UIDs).  ``search-rejected:<shape>`` = smallest legal
+sub-program answered NO/BAD.  ``search-metamorphic:<relation>``.
+``search-result-out-of-view`` = a number that is not in the session's view.
 
 Latitude (each use is counted in the evidence):
 
@@ -1544,7 +1566,7 @@ class C13(Check):
     time_cap = {'quick': 70.0, 'thorough': 600.0}
 
     def cases(self, tier: str, seed: int) -> Iterable[dict[str, Any]]:
-        n = 2600 if tier == 'quick' else 36000
+        n = 2600 if tier == 'quick' else 32000
         rng = random.Random(seed * 15485863 + 13)
         leafs = K_NOARG + K_STR + K_DATE + K_SIZE + K_KW + K_OID + \
             ['HEADER', 'UID', 'SEQSET']
